@@ -29,3 +29,4 @@ import RosedVerif.Model.GenEq.InsertTable
 import RosedVerif.Model.GenEq.Gem
 import RosedVerif.Model.GenEq.GemOps
 import RosedVerif.Model.GenEq.GemInv
+import RosedVerif.Model.GenEq.GemRev
